@@ -1,6 +1,5 @@
 # pylint: disable=bad-staticmethod-argument
 
-import copy
 import functools
 import inspect
 from typing import Callable
@@ -10,7 +9,13 @@ from lazy_object_proxy import Proxy
 
 from spec_classes.types import MISSING, Attr
 from spec_classes.utils.method_builder import MethodBuilder
-from spec_classes.utils.mutation import mutate_attr, mutate_value, prepare_attr_value
+from spec_classes.utils.mutation import (
+    mutate_attr,
+    mutate_value,
+    prepare_attr_value,
+    protect_via_deepcopy,
+    thawed,
+)
 
 from .base import AttrMethodDescriptor
 
@@ -272,8 +277,9 @@ class ResetAttrMethod(AttrMethodDescriptor):
         if not _if:
             return self
         if not _inplace:
-            self = copy.deepcopy(self)
-        delattr(self, attr_spec.name)
+            self = protect_via_deepcopy(self, for_mutation=True)
+        with thawed(self, enable=not _inplace):
+            delattr(self, attr_spec.name)
         return self
 
     def build_method(self) -> Callable:
